@@ -342,6 +342,9 @@ impl Polynomial<Cmplx> {
             };
             let x1 = *x - dx;
             if *x == x1 { return; }
+            // Next to a root at zero |p(x)|^2 underflows and the step is no longer finite:
+            // keep the current estimate instead of propagating NaN
+            if !( x1.real.is_finite() && x1.imag.is_finite() ) { return; }
             if iter % MT != 0 { *x = x1; } else { *x -= dx * frac[ iter / MT ]; }
         }
     }
